@@ -144,6 +144,13 @@ func keyShape(e *Env, v ssa.Value, depth int) *KeyShape {
 				return keyShape(e.Sub(x, sc), rets[0].Results[0], depth+1)
 			}
 		}
+	case *ssa.UnOp:
+		if w, we := e.ctorField(x); w != nil {
+			return keyShape(we, w, depth+1)
+		}
+		if f := forwarded(x); f != nil {
+			return keyShape(e, f, depth+1)
+		}
 	case *ssa.Phi:
 		var first *KeyShape
 		for _, ed := range x.Edges {
@@ -177,6 +184,10 @@ func accountOrigin(e *Env, v ssa.Value, depth int) []string {
 	case *ssa.Const:
 		if x.Value == nil {
 			return []string{"nil"}
+		}
+	case *ssa.UnOp:
+		if w, we := e.ctorField(x); w != nil {
+			return accountOrigin(we, w, depth+1)
 		}
 	case *ssa.TypeAssert:
 		return accountOrigin(e, x.X, depth+1)
